@@ -19,7 +19,7 @@ RULE = (
     'Gaussian / log-normal centred or not, truncated Gaussian, pooled, heterogeneous, n_dim 1-2, covariate wrapper '
     'with 1-3 covariate rows (n_cov 1-3, default or explicit selection; rows passed either as one (n_samples,n_cov) '
     'matrix or row by row as (n_cov,) vectors), compositions of 1-3 parts, optionally reduced; n_ids 1-4 for the '
-    'heterogeneous table; steered: truncated Gaussian mu/sigma in [-1,2] in 75% else [-3,5], log-normal sigma in '
+    'heterogeneous table; steered: truncated Gaussian mu/sigma in [-8,-5] (far tail) in 12%, else [-1,2] in 75% else [-3,5], log-normal sigma in '
     '[0.15,0.5] in 70% else [0.02,2]). Every sampler is called only as sample(..., seed=int) with a base seed from '
     'the spec; n1 = 20000 samples per case (8000 with a covariate wrapper, 3000 with a covariate wrapper around a '
     'truncated Gaussian, whose sampler is a Python loop), stage 2 uses a derived seed and 4*n1 samples '
@@ -39,7 +39,7 @@ ASSUMPTIONS = [
     'non-centred leaves are mapped by the leaf class\' own compute_individual_parameters with the parameters the '
     'reference layout assigns to that leaf (wrappers\' transforms are C05/C07)']
 REQUIRED = ['em:gauss', 'em:mult', 'em:cm', 'em:lognorm', 'em:reduced', 'steer:cm', 'pop:gauss', 'pop:lognorm',
-            'pop:trunc', 'pop:pooled', 'pop:hetero', 'noncentered', 'cov', 'comp', 'red', 'steer:trunc',
+            'pop:trunc', 'pop:pooled', 'pop:hetero', 'noncentered', 'cov', 'comp', 'red', 'steer:trunc', 'trunc_far_tail',
             'covmode:tile', 'covmode:rows']
 EM_KINDS = ['gauss', 'mult', 'cm', 'lognorm']
 SEEDS = st.integers(0, 2 ** 31 - 2)
@@ -104,7 +104,10 @@ def _elem_theta(draw, leaf, n_ids):
         return draw(gen.vec(gen.real(-2, 2), d)) + sig
     if k == 'trunc':
         sig = draw(gen.vec(gen.logu(1e-2, 1e2), d))
-        if gen.chance(draw, 0.75):
+        if gen.chance(draw, 0.12):
+            # far upper tail of the Gaussian (legitimate support; naive inverse-CDF samplers break here)
+            z = draw(gen.vec(gen.real(-8, -5), d))
+        elif gen.chance(draw, 0.75):
             z = draw(gen.vec(gen.real(-1, 2), d))
         else:
             z = draw(gen.vec(gen.real(-3, 5), d))
@@ -296,6 +299,8 @@ def classify(spec):
     for lf in leaf_table(pop, spec['n_ids'], spec['theta'], spec['cov']):
         if lf['kind'] == 'trunc' and np.all((lf['P'][:, 0] / lf['P'][:, 1] >= -1.5) & (lf['P'][:, 0] / lf['P'][:, 1] <= 2.5)):
             labs.append('steer:trunc')
+        if lf['kind'] == 'trunc' and np.any(lf['P'][:, 0] / lf['P'][:, 1] <= -5):
+            labs.append('trunc_far_tail')
         if lf['kind'] == 'hetero' and spec['n_ids'] >= 2:
             labs.append('hetero_table')
     if spec['ns'] is None:
